@@ -301,6 +301,8 @@ def forestStep (h : Heap) (regs : Array (Option Id)) (op : Json) : FR (Heap × A
       | some cont =>
         if !(fIsSub (← fnodeAt h cont)) then funmodelled
         let ch := regId (getNatF "child")
+        -- a config can not be attached below itself: SetChild refuses (cyclic), nothing changes
+        if onParentChain h 64 cont ch then return (h, regs)
         if allDigits last then
           if last.toNat! > 64 then funmodelled
           pure (attachIdx h cont last.toNat! ch, regs)
